@@ -27,7 +27,8 @@ func runCase(c chainsim.Case, rep chainsim.Reporter, scratch string) {
 	cm := &chainsim.CommitteeMonitor{Rep: rep}
 	cfg := chainsim.HistoryConfig{Seed: c.Seed, Profile: c.Profile, Blocks: c.Blocks, Paths: true,
 		Replicas: []chainsim.ReplicaConfig{{Name: "twin", Backend: "pathbadger"}}}
-	h, err := chainsim.NewHistory(cfg, em, cm)
+	km := &chainsim.KeyManagerMonitor{Rep: rep, Sig: "c14/keymanager"}
+	h, err := chainsim.NewHistory(cfg, em, cm, km)
 	if err != nil {
 		rep.Inconclusive("setup failed: " + err.Error())
 		return
@@ -97,7 +98,9 @@ func main() {
 			"histories with a compute runtime (profile runtime and ~1/3 of the others: group size 2-3, backup size 0-2, max-nodes-per-entity / min-pool-size / validator-set constraints from a PRNG menu, nodes that are compute workers, compute-only nodes, nodes registered for a wrong or not yet active runtime version, nodes suspended or frozen by the runtime's liveness rule, expired nodes) additionally check every executor committee written at elect.post against eligibility recomputed from elect.pre (registered, not expired, not frozen, compute role, registered for the active deployment version, not suspended for the runtime, entity stake covers its claims, validator-set membership where demanded): members eligible, exactly group size workers and backup size backup workers or no committee, no node twice in a role, per-entity maximum, minimum pool size, committee valid for the election epoch; " +
 			"non-trivial = history with >=4 elections in which nodes were excluded for >=2 different reasons, or history with >=3 elected committees and >=2 exclusion reasons",
 		Cases: func(r *evid.Run) []chainsim.Case {
-			return chainsim.StdCases(r.Seed, r.Pick(256, 3200), r.Pick(60, 100), []string{"election", "runtime", "hostile", "registry", "election", "runtime", "runtime", "election"})
+			cs := chainsim.StdCases(r.Seed, r.Pick(256, 3200), r.Pick(60, 100), []string{"election", "runtime", "hostile", "registry", "election", "runtime", "runtime", "election"})
+			// Key manager committees (the node list of the key manager status is rebuilt at every epoch transition).
+			return chainsim.WithExtraCases(cs, r.Seed, r.Pick(8, 100), "keymanager")
 		},
 		RunCase: runCase,
 		Floor:   10,
